@@ -198,6 +198,7 @@ Section Crypto.
   Notation authenticate := (authenticate sig_ok key_ok user_of tok1_ok tok2_ok n3_ok).
   Notation auth_ok := (auth_ok sig_ok key_ok user_of tok1_ok tok2_ok n3_ok).
   Notation stored_ok := (stored_ok H sig_ok key_ok user_of tok1_ok tok2_ok n3_ok).
+  Notation ec_parent_auth := (ec_parent_auth H sig_ok key_ok user_of tok1_ok tok2_ok n3_ok).
   Notation run_put := (run_put H hstate h0 upd fin sig_ok key_ok user_of tok1_ok tok2_ok n3_ok).
   Notation run_repl := (run_repl H sig_ok key_ok user_of tok1_ok tok2_ok n3_ok).
   Notation write_header := (write_header H hstate h0 sig_ok key_ok user_of tok1_ok tok2_ok n3_ok).
@@ -389,18 +390,36 @@ Section Crypto.
       right. apply N.eqb_eq in E3. repeat split; assumption.
   Qed.
 
+  Lemma id_ok_spec0 : forall o, id_ok H o = true -> o_id o = Some (H (o_hdrbin o)).
+  Proof.
+    unfold id_ok. intros o Hi. destruct (o_id o) as [i|]; [|discriminate].
+    apply bytes_eqb_eq in Hi. congruence.
+  Qed.
+
   (* ---- top-level validation of a complete object --------------------------------------- *)
   Lemma validate_top : forall e allow o,
     validate e false allow 0 o = true ->
-    id_ok H o = true /\ format_ok e allow o /\ (is_ec_obj e o = false -> auth_ok o).
+    id_ok H o = true /\ (is_ec_obj e o = true -> ec_parent_auth e o) /\
+    format_ok e allow o /\ (is_ec_obj e o = false -> auth_ok o).
   Proof.
     intros e allow o Hv.
-    destruct (validate_level _ _ _ _ _ Hv) as [_ [is_ec [Hec [Hid _]]]].
+    destruct (validate_level _ _ _ _ _ Hv) as [_ [is_ec [Hec [Hid Hpar]]]].
     destruct (Hid eq_refl) as [Hi Hau].
     destruct (validate_chain (depth o) _ _ _ _ _ (Nat.le_refl _) (Nat.le_0_l _) Hv) as [Hc Hd].
     cbn [Nat.ltb Nat.leb] in Hec.
     destruct (check_ec_top _ _ _ Hec) as [Hb [Hu [Hpart Hnil]]].
-    split; [exact Hi|]. split.
+    split; [exact Hi|]. split; [|split].
+    - (* the parent of an EC part is validated as a prepared object: ID and authentication *)
+      intro Hie. rewrite Hie in Hb. subst is_ec.
+      destruct (Hpart eq_refl) as [_ [_ [parent [ri [pi [d [p0 [hashes [csty [csv [Hop _]]]]]]]]]]].
+      unfold Spec.ec_parent_auth.
+      rewrite Hop in Hpar. destruct Hpar as [_ Hvp].
+      rewrite Bool.orb_true_r in Hvp. cbn [negb] in Hvp.
+      destruct (validate_level _ _ _ _ _ Hvp) as [_ [pec [Hpec [Hpid _]]]].
+      destruct (Hpid eq_refl) as [Hpi Hpau].
+      exists parent. split; [exact Hop|]. split; [apply id_ok_spec0; exact Hpi|].
+      intro Hf. cbn [Nat.ltb Nat.leb] in Hpec. rewrite Hf in Hpec. inversion Hpec; subst pec.
+      apply authenticate_sound. apply Hpau. reflexivity.
     - unfold format_ok. split; [exact Hc|]. split; [exact Hd|]. split; [exact Hu|]. split; [|exact Hnil].
       intro Hie. apply Hpart. congruence.
     - intro Hne. apply authenticate_sound. apply Hau. congruence.
@@ -461,6 +480,22 @@ Section Crypto.
     inversion Hw. apply N.eqb_eq in Et. subst ty. repeat split; [exists v; reflexivity | apply N.ltb_ge; exact Em].
   Qed.
 
+  (* ValidateContent accepted => the declarative content rules hold *)
+  Lemma validate_content_spec : forall e o pl, validate_content e o pl = true -> content_ok e o pl.
+  Proof.
+    unfold validate_content, content_ok. intros e o pl Hc.
+    destruct (o_type o); try exact I.
+    - destruct (sys_in_header (o_ver o)); cbn [negb] in Hc; [|discriminate].
+      destruct pl; cbn in Hc; [|discriminate]. repeat split; exact Hc.
+    - destruct (sys_in_header (o_ver o)); cbn [negb] in Hc; [|discriminate].
+      destruct pl; cbn in Hc; [|discriminate]. repeat split.
+    - destruct pl; cbn [is_nil] in Hc; [discriminate|].
+      destruct (o_first_set o); cbn [negb] in Hc; [|discriminate].
+      destruct (o_cnr o =? 0) eqn:Ec; [discriminate|].
+      destruct (o_link_parses o); cbn [negb] in Hc; [|discriminate].
+      repeat split; try exact Hc; [discriminate | apply N.eqb_neq; exact Ec].
+  Qed.
+
   (* C24, PUT path: whatever the pipeline stores is the submitted object with the streamed
      payload, and it is self-consistent, well-formed and authenticated *)
   Theorem put_stored_valid : forall e o chunks fail o' pl,
@@ -481,17 +516,17 @@ Section Crypto.
     destruct (o_size o =? ts_written st') eqn:Esz; cbn [negb] in Ec; [|discriminate].
     destruct (bytes_eqb (fin (ts_h st')) (cs_value o)) eqn:Ecs; cbn [negb] in Ec; [|discriminate].
     unfold dist_close in Ec.
-    destruct (validate_content e o (ts_next st')); cbn [negb] in Ec; [|discriminate].
+    destruct (validate_content e o (ts_next st')) eqn:Evc; cbn [negb] in Ec; [|discriminate].
     destruct fail; [discriminate|]. inversion Ec; subst o' pl. clear Ec.
     cbn in Hn. split; [reflexivity|]. split; [exact Hn|].
-    destruct (validate_top _ _ _ Hv) as [Hid [Hf Ha]].
+    destruct (validate_top _ _ _ Hv) as [Hid [Hpa [Hf Ha]]].
     unfold Spec.stored_ok. rewrite Hn.
     split; [apply id_ok_spec; exact Hid|].
     split; [apply N.eqb_eq in Esz; rewrite Esz, Hw; reflexivity|].
     split.
     - exists cs_sha256. apply bytes_eqb_eq in Ecs. rewrite Hh, Hstream in Ecs.
       unfold cs_value in Ecs. rewrite Hcs in Ecs. rewrite Hcs. congruence.
-    - split; assumption.
+    - split; [apply validate_content_spec; rewrite <- Hn; exact Evc|]. split; [exact Hpa|]. split; assumption.
   Qed.
 
   (* C24, replicate path *)
@@ -507,14 +542,16 @@ Section Crypto.
     destruct (o_size o =? blen (o_payload o)) eqn:Esz; cbn [negb] in Hr; [|discriminate].
     destruct (e_max e <? o_size o); [discriminate|].
     destruct (validate e false true 0 o) eqn:Hv; cbn [negb] in Hr; [|discriminate].
-    destruct (validate_content e o (o_payload o)); cbn [negb] in Hr; [|discriminate].
+    destruct (validate_content e o (o_payload o)) eqn:Evc; cbn [negb] in Hr; [|discriminate].
     destruct (bytes_eqb (H (o_payload o)) csv) eqn:Ecs; cbn [negb] in Hr; [|discriminate].
     destruct fail; [discriminate|]. inversion Hr; subst o' pl.
     split; [reflexivity|]. split; [reflexivity|].
-    destruct (validate_top _ _ _ Hv) as [Hid [Hf Ha]].
+    destruct (validate_top _ _ _ Hv) as [Hid [Hpa [Hf Ha]]].
     unfold Spec.stored_ok. split; [apply id_ok_spec; exact Hid|].
     split; [apply N.eqb_eq; exact Esz|].
     split; [exists ty; apply bytes_eqb_eq in Ecs; congruence|].
+    split; [apply validate_content_spec; exact Evc|].
+    split; [exact Hpa|].
     split; assumption.
   Qed.
 
@@ -526,7 +563,7 @@ Section Crypto.
     auth_ok o /\ ~ legacy o.
   Proof.
     intros e o chunks fail o' pl Hnp Hr Hne.
-    destruct (put_stored_valid _ _ _ _ _ _ Hnp Hr) as [_ [_ [_ [_ [_ [Hf Ha]]]]]].
+    destruct (put_stored_valid _ _ _ _ _ _ Hnp Hr) as [_ [_ [_ [_ [_ [_ [_ [Hf Ha]]]]]]]].
     split; [apply Ha; exact Hne|].
     destruct Hf as [Hc _]. rewrite chain_ok_eq in Hc. destruct Hc as [[[Hl|Hl] _] _]; [discriminate|].
     unfold legacy, valid_new_object in *. congruence.
